@@ -251,7 +251,80 @@ def login_case(ctx, case):
             ctx.fail('login', 'L6-link-left-open', case)
 
 
-COMPONENTS = {'login': login_case}
+def real_login_case(ctx, case):
+    """The same script over real loopback TCP (validation of the in-memory
+    transport): L1, L4, L5 (keep-alive answered, exit once), L6 (error
+    class)."""
+    from vlib import realnet
+    from vlib.core import HarnessError
+    from minecraft.networking.connection import Connection
+    from minecraft.exceptions import LoginDisconnect, VersionMismatch
+    version = case['version']
+    ctx.ev()
+    steps = [tuple(s) for s in case['steps']
+             if s[0] != 'plugin' or
+             servers.has_packet(version, 'plugin_request')]
+    # over real TCP the frames of one burst may arrive in separate
+    # segments, so a server that does not wait for a plugin answer before
+    # switching compression on races with the client by construction:
+    # the real-socket script always waits (as real proxies do)
+    steps = [s[:4] + (True,) if s[0] == 'plugin' else s for s in steps]
+    plugins = [s for s in steps if s[0] == 'plugin']
+    enc = next((s for s in steps if s[0] == 'encrypt'), None)
+    term = tuple(case['terminal'])
+    if term[0] == 'success':
+        steps.append(('success',))
+    else:
+        raw, want_kind, needle = disconnect_message(tuple(term[1]))
+        steps.append(('disconnect', raw))
+    srvs = []
+
+    def factory(addr):
+        s = servers.Server({
+            'version': version, 'login': list(steps),
+            'play': {'bursts': [[('keep_alive', {'keep_alive_id': 77})]],
+                     'mode': 'reactive', 'end': 'disconnect'}})
+        srvs.append(s)
+        return s
+    world = realnet.RealWorld(factory)
+    try:
+        excs, exits = [], []
+        conn = Connection('127.0.0.1', world.port, username='tester',
+                          allowed_versions={version},
+                          handle_exception=lambda e, i: excs.append(e),
+                          handle_exit=lambda: exits.append(1))
+        conn.connect()
+        if world.settle(conn) != 'done':
+            raise HarnessError('real-socket login did not settle (timeout)')
+    finally:
+        world.close()
+    srv = srvs[0]
+    if srv.errors:
+        ctx.fail('real_login', 'L2L3-malformed-client-stream', case,
+                 srv.errors)
+        return
+    if enc is not None and (srv.secret is None or
+                            getattr(srv, 'token_back', None) != enc[2]):
+        ctx.fail('real_login', 'L1-encryption-response', case)
+    want_pl = [(s[1], False, None) for s in plugins]
+    got_pl = [(r['message_id'], r['successful'], r['data'])
+              for r in srv.plugin_responses]
+    if term[0] == 'success':
+        if got_pl != want_pl:
+            ctx.fail('real_login', 'L4-plugin-responses', case, got_pl,
+                     want_pl)
+        if excs or exits != [1] or srv.replies != [('keep_alive', 77)]:
+            ctx.fail('real_login', 'L5-success', case,
+                     (repr(excs[:1]), exits, srv.replies))
+    else:
+        if len(excs) != 1 or not isinstance(
+                excs[0], (LoginDisconnect, VersionMismatch)):
+            ctx.fail('real_login', 'L6-login-failure', case, repr(excs))
+    ctx.label('traces_validated_against_real_sockets')
+    ctx.nt('real', repr(case))
+
+
+COMPONENTS = {'login': login_case, 'real_login': real_login_case}
 
 
 # --------------------------------------------------------------- strategies
@@ -351,6 +424,14 @@ def t_random(ctx, versions, n):
     hyp(ctx, 'random', case_strategy(versions), body, n)
 
 
+def t_real(ctx, n):
+    def body(c, case):
+        real_login_case(c, case)
+    hyp(ctx, 'real', case_strategy(ERA_VERSIONS), body, n)
+    ctx.sample({'note': 'same scripts and oracles over 127.0.0.1 TCP'},
+               'real')
+
+
 def tasks(tier):
     q = tier == 'quick'
     import minecraft
@@ -360,6 +441,8 @@ def tasks(tier):
     for i in range(4):
         tl.append(('fixed_%d' % i, t_fixed,
                    dict(versions=ERA_VERSIONS[i::4])))
+    for i in range(1 if q else 4):
+        tl.append(('real_%d' % i, t_real, dict(n=12 if q else 150)))
     for i in range(8 if q else 16):
         tl.append(('random_%d' % i, t_random,
                    dict(versions=ERA_VERSIONS + extra,
